@@ -26,10 +26,11 @@ type sfField struct {
 }
 
 type sfProg struct {
-	Fields   [2][2]sfField // struct index, field index
-	Typedefs bool          // typedef S0 A0; typedef S1 A1
-	Const    bool          // const S0 C0 = {}
-	Layout   int           // 0: one file; 1: S1,E,K in f1; 2: S1 in f1, E,K in f2
+	Fields       [2][2]sfField // struct index, field index
+	Typedefs     bool          // typedef S0 A0; typedef S1 A1
+	TypedefCross bool          // A0 is declared in S1's file and A1 in S0's file
+	Const        bool          // const S0 C0 = {}
+	Layout       int           // 0: one file; 1: S1,E,K in f1; 2: S1 in f1, E,K in f2
 }
 
 var sfOptions = []sfField{
@@ -43,17 +44,27 @@ var sfOptions = []sfField{
 // sfOptionsTypedef: the struct types also through typedefs (A0 = typedef S0, A1 =
 // typedef S1, declared next to their structs).
 var sfOptionsTypedef = []sfField{
-	{"i32", ""}, {"i32", "1"}, {"E", "E.A"},
+	{"i32", ""}, {"E", "E.A"},
 	{"S0", ""}, {"S0", "{}"}, {"S1", ""}, {"S1", "{}"},
 	{"A0", ""}, {"A0", "{}"}, {"A1", ""}, {"A1", "{}"},
 	// container-typed fields whose element type is another definition, with a non-empty default
 	{"list<E>", "[1]"}, {"list<S1>", "[{}]"},
+	// ... and a typedef of such a container (L1 = typedef list<S1>, declared next to S1)
+	{"L1", "[{}]"},
 }
 
 // fileOf says where a name lives under the layout.
 func (p *sfProg) fileOf(name string) int {
+	if name == "L1" {
+		name = "S1"
+	}
 	if name == "A0" || name == "A1" {
-		name = "S" + name[1:]
+		// a typedef lives next to its struct, or (TypedefCross) next to the OTHER struct
+		if p.TypedefCross {
+			name = "S" + string('0'+('1'-name[1]))
+		} else {
+			name = "S" + name[1:]
+		}
 	}
 	switch p.Layout {
 	case 1:
@@ -114,8 +125,9 @@ func (p *sfProg) render() map[string]string {
 		body[f] += fmt.Sprintf("struct %s { %s }\n", sn, strings.Join(fs, "; "))
 	}
 	if p.Typedefs {
-		body[p.fileOf("S0")] += "typedef S0 A0\n"
-		body[p.fileOf("S1")] += "typedef S1 A1\n"
+		body[p.fileOf("A0")] += "typedef " + ref(p.fileOf("A0"), "S0") + " A0\n"
+		body[p.fileOf("A1")] += "typedef " + ref(p.fileOf("A1"), "S1") + " A1\n"
+		body[p.fileOf("L1")] += "typedef list<S1> L1\n"
 	}
 	body[p.fileOf("E")] += "enum E { A = 1, B = 5 }\n"
 	body[p.fileOf("K")] += "const i32 K = 7\n"
@@ -148,7 +160,7 @@ func (p *sfProg) typeRepr(t string) string {
 		return t
 	case "E":
 		return fmt.Sprintf("%s:E(enum)", resolve.Path(p.fileOf("E")))
-	case "A0", "A1":
+	case "A0", "A1", "L1":
 		return fmt.Sprintf("%s:%s(typedef)", resolve.Path(p.fileOf(t)), t)
 	}
 	return fmt.Sprintf("%s:%s(struct)", resolve.Path(p.fileOf(t)), t)
@@ -260,7 +272,7 @@ func (r *runner) structAlphabet(opts []sfField, typedefs bool) {
 			for fi := 0; fi < 2; fi++ {
 				p.Fields[si][fi] = opts[c%n]
 				c /= n
-				if t := p.Fields[si][fi].Type[0]; t == 'A' || t == 'l' {
+				if t := p.Fields[si][fi].Type[0]; t == 'A' || t == 'l' || t == 'L' {
 					needed = true // the second alphabet only adds programs that use a typedef or a container
 				}
 			}
@@ -269,7 +281,7 @@ func (r *runner) structAlphabet(opts []sfField, typedefs bool) {
 		hasStruct := false
 		for si := 0; si < 2; si++ {
 			for fi := 0; fi < 2; fi++ {
-				if t := p.Fields[si][fi].Type[0]; t == 'S' || t == 'A' || t == 'l' {
+				if t := p.Fields[si][fi].Type[0]; t == 'S' || t == 'A' || t == 'l' || t == 'L' {
 					hasStruct = true
 				}
 			}
@@ -293,8 +305,15 @@ func (r *runner) structAlphabet(opts []sfField, typedefs bool) {
 					return
 				}
 				p.Const, p.Layout = withConst, layout
+				p.TypedefCross = false
 				r.structOne(p)
 				w.Done()
+				if typedefs && layout > 0 && !withConst {
+					// the same program with each typedef declared in the other struct's file
+					p.TypedefCross = true
+					r.structOne(p)
+					p.TypedefCross = false
+				}
 			}
 		}
 	}
